@@ -12,9 +12,12 @@ pub mod k0_par {
       relation r1(i64);
       relation r2(i64, i64, i64);
       r2(v1, v1, v1) <-- if let Some(v0) = Some(1), r0(v1, v0);
-      r2(v0, v2, v3) <-- r0(v0, v1), r0(v1, v2), r0(v2, v3);
-      r2(v0, v2, v3) <-- r0(v0, v1), r0(v1, v2), r0(v2, v3);
-      r2(v0, v1, v0) <-- r1(v0) if ((*v0) <= 3), r2(3, v1, v0);
+      r2(v0, v8, v9) <-- if let Some(v9) = Some(0), r0(v0, v1), r0(v1, v9) let v8 = ((*v0) + 1);
+      r2(v0, v1, v0) <-- r0(v0, v1), r0(v1, v1);
+      r2(1, v2, v0) <-- if let Some(v0) = Some(3), r0(v1, 2) if ((*v1) != 3) let v2 = ((*v1) + 1), if (v2 <= 6), if (v0 <= 6);
+      r2(3, v1, v1) <-- r0(v0, v1), r1(((*v1) + 0)) if ((*v0) <= 2), r1(v1);
+      r1(v2) <-- if let Some(v0) = Some(2), r2((v0 + 0), v1, v0), for v2 in 0..2, r0(((*v1) + 0), v3);
+      r2(v0, v0, v0) <-- r1(v0);
    }
    pub struct Inst { p: Prog, pool: Option<ascent::rayon::ThreadPool> }
    pub fn make(pool: Option<usize>) -> Box<dyn Driver> {
@@ -70,8 +73,8 @@ pub mod k1_run {
             r2(0, 3) <-- r1(2, 1);
             r3(v3, v2) <-- if let Some(v0) = None::<i64>, r2(v1, v0), if (v0 < 5), r1(v2, v3);
             r2(v0, v2) <-- r2(v0, v1), r2(v1, v2), r3(v2, v3);
-            r1(v0, v1) <-- let v9 = 2, r2(v0, v1), r1(v1, v9);
-            r3(v0, v0) <-- if let Some(v0) = Some(0), r3(v0, (v0 + 1));
+            r1(v0, v1) <-- r2(v0, v1), r1(((*v0) + 1), v2);
+            r3(v0, v0) <-- if let Some(v0) = Some(0), r3(v0, (v0 + 1)), if (v0 <= 6);
             r1(v0, v0) <-- r0(v0, 0, 1);
             r1(v3, v1) <-- for v0 in [0], r1(v1, v0), r3(v0, v2), r1(v3, v4), for v5 in [4, 2, 1];
          };
@@ -120,8 +123,8 @@ pub mod k1_incfirst {
       relation r2(i64, i64);
       relation r3(i64, i64);
       include_source!(k1_incfirst_src);
-      r1(v0, v1) <-- let v9 = 2, r2(v0, v1), r1(v1, v9);
-      r3(v0, v0) <-- if let Some(v0) = Some(0), r3(v0, (v0 + 1));
+      r1(v0, v1) <-- r2(v0, v1), r1(((*v0) + 1), v2);
+      r3(v0, v0) <-- if let Some(v0) = Some(0), r3(v0, (v0 + 1)), if (v0 <= 6);
       r1(v0, v0) <-- r0(v0, 0, 1);
       r1(v3, v1) <-- for v0 in [0], r1(v1, v0), r3(v0, v2), r1(v3, v4), for v5 in [4, 2, 1];
    }
@@ -164,7 +167,7 @@ pub mod k2_grt {
       relation r2(i64, i64);
       relation r3(i64, i64);
       relation r4(i64, i64);
-      r2(v0, v1) <-- let v9 = 2, r4(v0, v1), r1(v1, v9);
+      r2(v0, v1) <-- r4(v0, v1), r1(v1, v1);
       r3(3, 0);
       r1(v0, v0) <-- r4(v0, 3), if let Some(v1) = None::<i64>, r4(v1, v2);
       r3(v2, v1) <-- if let Some(v0) = None::<i64>, r2(v1, 2), if ((*v1) != 4), r3(v2, v1) if ((*v2) != 2);
@@ -208,7 +211,7 @@ pub mod k2_init {
       relation r2(i64, i64) = vec![(4,4,), (4,3,)];
       relation r3(i64, i64) = vec![(3,2,), (4,2,), (4,1,), (3,4,), (0,1,), (1,0,), (0,0,), (3,1,), (0,2,), (3,0,), (4,0,), (4,4,), (0,3,), (1,4,), (2,3,), (0,4,), (4,3,), (2,2,), (2,0,), (1,2,), (1,3,)];
       relation r4(i64, i64) = vec![(3,1,), (2,3,)];
-      r2(v0, v1) <-- let v9 = 2, r4(v0, v1), r1(v1, v9);
+      r2(v0, v1) <-- r4(v0, v1), r1(v1, v1);
       r3(3, 0);
       r1(v0, v0) <-- r4(v0, 3), if let Some(v1) = None::<i64>, r4(v1, v2);
       r3(v2, v1) <-- if let Some(v0) = None::<i64>, r2(v1, 2), if ((*v1) != 4), r3(v2, v1) if ((*v2) != 2);
@@ -254,11 +257,9 @@ pub mod k3_redecl {
       relation r3(i64);
       relation r4(i64, i64, i64);
       relation r5(i64, i64);
-      r3(v0) <-- r1(v0, v1), r2(v1, v2), r5(v2, v3);
-      r5(v1, v0) <-- r0(v0, 3) if ((*v0) != 2), r0(v0, v1) if ((*v1) <= 4);
-      r2(v0, v0) <-- r1(3, 0), r4(v0, v1, v2), if let Some(v3) = Some((*v0)), r4(v4, v1, v5);
-      r5((v0 + 1), v0) <-- if let Some(v0) = None::<i64>, if (v0 < 6);
-      r2(v1, ((*v0) + 1)) <-- r1(v0, 2), r0(v1, v0), r1(v2, v3), if ((*v0) < 6);
+      r5(v0, v8) <-- if let Some(v9) = Some(3), r1(v0, v1), r2(v1, v9) let v8 = ((*v0) + 1);
+      r3(1) <-- r1(v0, 3) if ((*v0) != 2), r0(v0, v1) if ((*v1) <= 4), r0(v2, ((*v1) + 0));
+      r5(v3, v3) <-- r5(v0, v1) if ((*v1) < 6) let v2 = ((*v0) + 1), r3(v3) if (v2 <= 4);
    }
    pub struct Inst { p: Prog, pool: Option<ascent::rayon::ThreadPool> }
    pub fn make(pool: Option<usize>) -> Box<dyn Driver> {
@@ -320,10 +321,10 @@ pub mod k4_runpar {
             relation r4(i64) = in4.into_iter().collect();
             relation r5(i64, i64, i64) = in5.into_iter().collect();
             r2(3, 1, 1) <-- r0(0);
-            r3(v2, v1, v2) <-- if let Some(v0) = Some(2), r0(v1), if let Some(v2) = Some((*v1));
+            r3(v2, v1, v2) <-- if let Some(v0) = Some(2), r0(v1), if let Some(v2) = Some((*v1)), if (v2 <= 6);
             r4(v0) <-- r2(3, v0, 1), r3(v1, v2, v3);
-            r5(v0, v1, v9) <-- for v9 in 0..4, r1(v0, v1), r1(v9, v1);
-            r3(v0, v1, v9) <-- for v9 in 0..2, r1(v0, v1), r1(v9, v1);
+            r5(v0, v2, v3) <-- r1(v0, v1), r1(v1, v2), r1(v2, v3);
+            r3(v0, v2, v3) <-- r1(v0, v1), r1(v1, v2), r1(v2, v3);
             r5(0, ((*v0) + 1), v0) <-- r3(0, 3, v0), if ((*v0) < 6);
          };
          self.out0 = res.r0.iter().cloned().collect();
@@ -364,7 +365,7 @@ pub mod k4_incmiddle {
    use crate::common::*;
    ascent_source! { k4_incmiddle_src:
       r2(3, 1, 1) <-- r0(0);
-      r3(v2, v1, v2) <-- if let Some(v0) = Some(2), r0(v1), if let Some(v2) = Some((*v1));
+      r3(v2, v1, v2) <-- if let Some(v0) = Some(2), r0(v1), if let Some(v2) = Some((*v1)), if (v2 <= 6);
       r4(v0) <-- r2(3, v0, 1), r3(v1, v2, v3);
    }
    ascent! {
@@ -375,9 +376,9 @@ pub mod k4_incmiddle {
       relation r3(i64, i64, i64);
       relation r4(i64);
       relation r5(i64, i64, i64);
-      r5(v0, v1, v9) <-- for v9 in 0..4, r1(v0, v1), r1(v9, v1);
+      r5(v0, v2, v3) <-- r1(v0, v1), r1(v1, v2), r1(v2, v3);
       include_source!(k4_incmiddle_src);
-      r3(v0, v1, v9) <-- for v9 in 0..2, r1(v0, v1), r1(v9, v1);
+      r3(v0, v2, v3) <-- r1(v0, v1), r1(v1, v2), r1(v2, v3);
       r5(0, ((*v0) + 1), v0) <-- r3(0, 3, v0), if ((*v0) < 6);
    }
    pub struct Inst { p: Prog, pool: Option<ascent::rayon::ThreadPool> }
@@ -423,7 +424,7 @@ pub mod k5_both {
       r1(v0, v0) <-- r0(v0);
       r1(((*v1) + 1), v1) <-- r1(v0, 1), r1(v1, v0), if ((*v1) < 6);
       r2(v0) <-- if let Some(v9) = Some(0), r1(v0, v1), r1(v1, v9) let v8 = ((*v0) + 1);
-      r1(v0, v0) <-- if let Some(v0) = Some(0);
+      r1(v0, v0) <-- if let Some(v0) = Some(0), if (v0 <= 6);
       r2(v1) <-- r0(v0), for v1 in 0..1;
       r2(0);
       r1(v0, v1) <-- r2(v0), r0(v0), for v1 in [4, 4];
@@ -465,13 +466,16 @@ pub mod k6 {
       relation r2(i64, i64);
       relation r3(i64, i64);
       relation r4(i64, i64);
-      r1(v0, v1) <-- r2(v0, v1) if ((*v0) < 2), r1(v1, v2) if ((*v2) != (*v1));
-      r2(v0, v2) <-- r1(v0, v1), r1(v1, v2), r2(v2, v3);
-      r2(v0, v1) <-- r1(v0, v1);
-      r2(v2, v1) <-- r1(v0, v1) if ((*v0) <= 2) let v2 = ((*v0) + 1);
-      r2(v0, (v0 + 1)) <-- if let Some(v0) = Some(0), r2((v0 + 1), v0), if (v0 < 6);
-      r3(v1, 0) <-- r1(v0, v1), agg () = not() in r0(_);
-      r4(v0, v21) <-- r0(v0), agg v21 = sum(v20) in r3((*v0), v20);
+      relation r5(i64);
+      relation r6(i64);
+      r1(v0, v1) <-- r2(v0, v1), r1(((*v0) + 1), v2);
+      r1(v0, v1) <-- r1(v0, v1), r1(v1, v1);
+      r1(v0, v0) <-- r0(v0) if ((*v0) < 5);
+      r2(v2, v0) <-- if let Some(v0) = Some(1), r2((v0 + 1), (v0 + 1)) if (v0 <= 5), r1(v1, v2), if (v0 <= 6);
+      r3(v0, v21) <-- r0(v0), agg v21 = min(v20) in r1((*v0), v20);
+      r4(v0, v21) <-- r2(v0, v1), r0(v0), r0(v32), agg v21 = max(v20) in r3((*v32), v20);
+      r5(v1) <-- r1(v0, v1), r1(v1, v0), r0(v1), agg v21 = sum(v20) in r1((*v1), v20);
+      r6(v0) <-- r0(v0), r2(v31, v31), agg () = not() in r3((*v31), (*v0));
    }
    pub struct Inst { p: Prog, pool: Option<ascent::rayon::ThreadPool> }
    pub fn make(pool: Option<usize>) -> Box<dyn Driver> {
@@ -487,6 +491,8 @@ pub mod k6 {
          2 => { let v: Vec<(i64,i64,)> = parse_rows(rows)?; if append { self.p.r2.extend(v) } else { self.p.r2 = v } },
          3 => { let v: Vec<(i64,i64,)> = parse_rows(rows)?; if append { self.p.r3.extend(v) } else { self.p.r3 = v } },
          4 => { let v: Vec<(i64,i64,)> = parse_rows(rows)?; if append { self.p.r4.extend(v) } else { self.p.r4 = v } },
+         5 => { let v: Vec<(i64,)> = parse_rows(rows)?; if append { self.p.r5.extend(v) } else { self.p.r5 = v } },
+         6 => { let v: Vec<(i64,)> = parse_rows(rows)?; if append { self.p.r6.extend(v) } else { self.p.r6 = v } },
             _ => return None,
          }
          Some(())
@@ -494,7 +500,7 @@ pub mod k6 {
       fn run(&mut self) { match &self.pool { Some(pl) => { let p = &mut self.p; pl.install(|| p.run()) }, None => self.p.run() } }
       fn run_here(&mut self) { self.p.run() }
       fn run_timeout(&mut self, k: usize) -> Option<bool> { let _ = k; None }
-      fn dump(&self) -> String { vec![dump_rel(0, self.p.r0.iter().map(Row::render).collect()), dump_rel(1, self.p.r1.iter().map(Row::render).collect()), dump_rel(2, self.p.r2.iter().map(Row::render).collect()), dump_rel(3, self.p.r3.iter().map(Row::render).collect()), dump_rel(4, self.p.r4.iter().map(Row::render).collect())].join(" | ") }
+      fn dump(&self) -> String { vec![dump_rel(0, self.p.r0.iter().map(Row::render).collect()), dump_rel(1, self.p.r1.iter().map(Row::render).collect()), dump_rel(2, self.p.r2.iter().map(Row::render).collect()), dump_rel(3, self.p.r3.iter().map(Row::render).collect()), dump_rel(4, self.p.r4.iter().map(Row::render).collect()), dump_rel(5, self.p.r5.iter().map(Row::render).collect()), dump_rel(6, self.p.r6.iter().map(Row::render).collect())].join(" | ") }
       fn iters(&self) -> String { format!("iters {}", self.p.scc_iters.iter().map(|x| x.to_string()).collect::<Vec<_>>().join(" ")) }
    }
 }
@@ -513,13 +519,16 @@ pub mod k6_gen {
       relation r2(i64, i64);
       relation r3(i64, i64);
       relation r4(i64, i64);
-      r1(v0, v1) <-- r2(v0, v1) if ((*v0) < 2), r1(v1, v2) if ((*v2) != (*v1));
-      r2(v0, v2) <-- r1(v0, v1), r1(v1, v2), r2(v2, v3);
-      r2(v0, v1) <-- r1(v0, v1);
-      r2(v2, v1) <-- r1(v0, v1) if ((*v0) <= 2) let v2 = ((*v0) + 1);
-      r2(v0, (v0 + 1)) <-- if let Some(v0) = Some(0), r2((v0 + 1), v0), if (v0 < 6);
-      r3(v1, 0) <-- r1(v0, v1), agg () = not() in r0(_);
-      r4(v0, v21) <-- r0(v0), agg v21 = sum(v20) in r3((*v0), v20);
+      relation r5(i64);
+      relation r6(i64);
+      r1(v0, v1) <-- r2(v0, v1), r1(((*v0) + 1), v2);
+      r1(v0, v1) <-- r1(v0, v1), r1(v1, v1);
+      r1(v0, v0) <-- r0(v0) if ((*v0) < 5);
+      r2(v2, v0) <-- if let Some(v0) = Some(1), r2((v0 + 1), (v0 + 1)) if (v0 <= 5), r1(v1, v2), if (v0 <= 6);
+      r3(v0, v21) <-- r0(v0), agg v21 = min(v20) in r1((*v0), v20);
+      r4(v0, v21) <-- r2(v0, v1), r0(v0), r0(v32), agg v21 = max(v20) in r3((*v32), v20);
+      r5(v1) <-- r1(v0, v1), r1(v1, v0), r0(v1), agg v21 = sum(v20) in r1((*v1), v20);
+      r6(v0) <-- r0(v0), r2(v31, v31), agg () = not() in r3((*v31), (*v0));
    }
    pub struct Inst { p: Prog<String>, pool: Option<ascent::rayon::ThreadPool> }
    pub fn make(pool: Option<usize>) -> Box<dyn Driver> {
@@ -535,6 +544,8 @@ pub mod k6_gen {
          2 => { let v: Vec<(i64,i64,)> = parse_rows(rows)?; if append { self.p.r2.extend(v) } else { self.p.r2 = v } },
          3 => { let v: Vec<(i64,i64,)> = parse_rows(rows)?; if append { self.p.r3.extend(v) } else { self.p.r3 = v } },
          4 => { let v: Vec<(i64,i64,)> = parse_rows(rows)?; if append { self.p.r4.extend(v) } else { self.p.r4 = v } },
+         5 => { let v: Vec<(i64,)> = parse_rows(rows)?; if append { self.p.r5.extend(v) } else { self.p.r5 = v } },
+         6 => { let v: Vec<(i64,)> = parse_rows(rows)?; if append { self.p.r6.extend(v) } else { self.p.r6 = v } },
             _ => return None,
          }
          Some(())
@@ -542,7 +553,7 @@ pub mod k6_gen {
       fn run(&mut self) { match &self.pool { Some(pl) => { let p = &mut self.p; pl.install(|| p.run()) }, None => self.p.run() } }
       fn run_here(&mut self) { self.p.run() }
       fn run_timeout(&mut self, k: usize) -> Option<bool> { let _ = k; None }
-      fn dump(&self) -> String { vec![dump_rel(0, self.p.r0.iter().map(Row::render).collect()), dump_rel(1, self.p.r1.iter().map(Row::render).collect()), dump_rel(2, self.p.r2.iter().map(Row::render).collect()), dump_rel(3, self.p.r3.iter().map(Row::render).collect()), dump_rel(4, self.p.r4.iter().map(Row::render).collect())].join(" | ") }
+      fn dump(&self) -> String { vec![dump_rel(0, self.p.r0.iter().map(Row::render).collect()), dump_rel(1, self.p.r1.iter().map(Row::render).collect()), dump_rel(2, self.p.r2.iter().map(Row::render).collect()), dump_rel(3, self.p.r3.iter().map(Row::render).collect()), dump_rel(4, self.p.r4.iter().map(Row::render).collect()), dump_rel(5, self.p.r5.iter().map(Row::render).collect()), dump_rel(6, self.p.r6.iter().map(Row::render).collect())].join(" | ") }
       fn iters(&self) -> String { format!("iters {}", self.p.scc_iters.iter().map(|x| x.to_string()).collect::<Vec<_>>().join(" ")) }
    }
 }
@@ -563,15 +574,17 @@ pub mod k7_mrt {
       relation r4(i64, i64, i64);
       relation r5(i64);
       relation r6(i64);
+      relation r7(i64);
       r3(1, 3) <-- r1(2);
-      r3(v0, v1) <-- r3(1, 2), if let Some(v0) = Some(1), r3(v0, v1);
-      r2(v0) <-- r3(v0, v1) if ((*v0) < 3), r3(v1, v2) if ((*v2) != (*v1));
-      r4(v0, 0, v0) <-- let v0 = 4, r2((v0 + 1)) if (v0 < 3);
-      r2(v0) <-- r0(v0);
-      r3(v0, 3) <-- for v0 in 0..4, r3(v0, v1), r2(2) if ((*v1) <= 3), r0(3);
-      r3(v0, v0) <-- r0(v0), r1(v1);
-      r5(v32) <-- r0(v0), r3(v0, v0), r3(v31, v32), agg v21 = min(v20) in r3(_, v20);
+      r3(v0, v1) <-- r3(1, 2), if let Some(v0) = Some(1), r3(v0, v1), if (v0 <= 6);
+      r4(v0, v1, v9) <-- let v9 = 1, r3(v0, v1), r3(v1, v9);
+      r2(v1) <-- let v0 = 4, r2((v0 + 1)) if (v0 < 3), r2(v1) if (v0 <= 5);
+      r2(1) <-- r4(v0, v1, v2), r1(v3);
+      r2(v1) <-- if let Some(v0) = Some(1), r0(v1), for v2 in 2..4, r0(v3) if (v0 < 2) let v4 = ((*v3) + 1);
+      r3(1, (v1 + 1)) <-- r2(v0) if ((*v0) < 6) let v1 = ((*v0) + 1), if (v1 < 6);
+      r5(v0) <-- r3(v0, v1), agg v21 = max(v20) in r3(v20, _);
       r6(v0) <-- r0(v0), agg () = not() in r3((*v0), (*v0));
+      r7(v0) <-- r3(v0, v1), agg v21 = min(v20) in r0(v20);
    }
    pub struct Inst { p: Prog, pool: Option<ascent::rayon::ThreadPool> }
    pub fn make(pool: Option<usize>) -> Box<dyn Driver> {
@@ -589,6 +602,7 @@ pub mod k7_mrt {
          4 => { let v: Vec<(i64,i64,i64,)> = parse_rows(rows)?; if append { self.p.r4.extend(v) } else { self.p.r4 = v } },
          5 => { let v: Vec<(i64,)> = parse_rows(rows)?; if append { self.p.r5.extend(v) } else { self.p.r5 = v } },
          6 => { let v: Vec<(i64,)> = parse_rows(rows)?; if append { self.p.r6.extend(v) } else { self.p.r6 = v } },
+         7 => { let v: Vec<(i64,)> = parse_rows(rows)?; if append { self.p.r7.extend(v) } else { self.p.r7 = v } },
             _ => return None,
          }
          Some(())
@@ -596,7 +610,7 @@ pub mod k7_mrt {
       fn run(&mut self) { match &self.pool { Some(pl) => { let p = &mut self.p; pl.install(|| p.run()) }, None => self.p.run() } }
       fn run_here(&mut self) { self.p.run() }
       fn run_timeout(&mut self, k: usize) -> Option<bool> { let _ = k; None }
-      fn dump(&self) -> String { vec![dump_rel(0, self.p.r0.iter().map(Row::render).collect()), dump_rel(1, self.p.r1.iter().map(Row::render).collect()), dump_rel(2, self.p.r2.iter().map(Row::render).collect()), dump_rel(3, self.p.r3.iter().map(Row::render).collect()), dump_rel(4, self.p.r4.iter().map(Row::render).collect()), dump_rel(5, self.p.r5.iter().map(Row::render).collect()), dump_rel(6, self.p.r6.iter().map(Row::render).collect())].join(" | ") }
+      fn dump(&self) -> String { vec![dump_rel(0, self.p.r0.iter().map(Row::render).collect()), dump_rel(1, self.p.r1.iter().map(Row::render).collect()), dump_rel(2, self.p.r2.iter().map(Row::render).collect()), dump_rel(3, self.p.r3.iter().map(Row::render).collect()), dump_rel(4, self.p.r4.iter().map(Row::render).collect()), dump_rel(5, self.p.r5.iter().map(Row::render).collect()), dump_rel(6, self.p.r6.iter().map(Row::render).collect()), dump_rel(7, self.p.r7.iter().map(Row::render).collect())].join(" | ") }
       fn iters(&self) -> String { format!("iters {}", self.p.scc_iters.iter().map(|x| x.to_string()).collect::<Vec<_>>().join(" ")) }
    }
 }
@@ -609,9 +623,10 @@ pub mod k7_inclast {
    use crate::common::*;
    ascent_source! { k7_inclast_src:
       r3(1, 3) <-- r1(2);
-      r3(v0, v1) <-- r3(1, 2), if let Some(v0) = Some(1), r3(v0, v1);
-      r2(v0) <-- r3(v0, v1) if ((*v0) < 3), r3(v1, v2) if ((*v2) != (*v1));
-      r4(v0, 0, v0) <-- let v0 = 4, r2((v0 + 1)) if (v0 < 3);
+      r3(v0, v1) <-- r3(1, 2), if let Some(v0) = Some(1), r3(v0, v1), if (v0 <= 6);
+      r4(v0, v1, v9) <-- let v9 = 1, r3(v0, v1), r3(v1, v9);
+      r2(v1) <-- let v0 = 4, r2((v0 + 1)) if (v0 < 3), r2(v1) if (v0 <= 5);
+      r2(1) <-- r4(v0, v1, v2), r1(v3);
    }
    ascent! {
       pub struct Prog;
@@ -622,11 +637,12 @@ pub mod k7_inclast {
       relation r4(i64, i64, i64);
       relation r5(i64);
       relation r6(i64);
-      r2(v0) <-- r0(v0);
-      r3(v0, 3) <-- for v0 in 0..4, r3(v0, v1), r2(2) if ((*v1) <= 3), r0(3);
-      r3(v0, v0) <-- r0(v0), r1(v1);
-      r5(v32) <-- r0(v0), r3(v0, v0), r3(v31, v32), agg v21 = min(v20) in r3(_, v20);
+      relation r7(i64);
+      r2(v1) <-- if let Some(v0) = Some(1), r0(v1), for v2 in 2..4, r0(v3) if (v0 < 2) let v4 = ((*v3) + 1);
+      r3(1, (v1 + 1)) <-- r2(v0) if ((*v0) < 6) let v1 = ((*v0) + 1), if (v1 < 6);
+      r5(v0) <-- r3(v0, v1), agg v21 = max(v20) in r3(v20, _);
       r6(v0) <-- r0(v0), agg () = not() in r3((*v0), (*v0));
+      r7(v0) <-- r3(v0, v1), agg v21 = min(v20) in r0(v20);
       include_source!(k7_inclast_src);
    }
    pub struct Inst { p: Prog, pool: Option<ascent::rayon::ThreadPool> }
@@ -645,6 +661,7 @@ pub mod k7_inclast {
          4 => { let v: Vec<(i64,i64,i64,)> = parse_rows(rows)?; if append { self.p.r4.extend(v) } else { self.p.r4 = v } },
          5 => { let v: Vec<(i64,)> = parse_rows(rows)?; if append { self.p.r5.extend(v) } else { self.p.r5 = v } },
          6 => { let v: Vec<(i64,)> = parse_rows(rows)?; if append { self.p.r6.extend(v) } else { self.p.r6 = v } },
+         7 => { let v: Vec<(i64,)> = parse_rows(rows)?; if append { self.p.r7.extend(v) } else { self.p.r7 = v } },
             _ => return None,
          }
          Some(())
@@ -652,7 +669,7 @@ pub mod k7_inclast {
       fn run(&mut self) { match &self.pool { Some(pl) => { let p = &mut self.p; pl.install(|| p.run()) }, None => self.p.run() } }
       fn run_here(&mut self) { self.p.run() }
       fn run_timeout(&mut self, k: usize) -> Option<bool> { let _ = k; None }
-      fn dump(&self) -> String { vec![dump_rel(0, self.p.r0.iter().map(Row::render).collect()), dump_rel(1, self.p.r1.iter().map(Row::render).collect()), dump_rel(2, self.p.r2.iter().map(Row::render).collect()), dump_rel(3, self.p.r3.iter().map(Row::render).collect()), dump_rel(4, self.p.r4.iter().map(Row::render).collect()), dump_rel(5, self.p.r5.iter().map(Row::render).collect()), dump_rel(6, self.p.r6.iter().map(Row::render).collect())].join(" | ") }
+      fn dump(&self) -> String { vec![dump_rel(0, self.p.r0.iter().map(Row::render).collect()), dump_rel(1, self.p.r1.iter().map(Row::render).collect()), dump_rel(2, self.p.r2.iter().map(Row::render).collect()), dump_rel(3, self.p.r3.iter().map(Row::render).collect()), dump_rel(4, self.p.r4.iter().map(Row::render).collect()), dump_rel(5, self.p.r5.iter().map(Row::render).collect()), dump_rel(6, self.p.r6.iter().map(Row::render).collect()), dump_rel(7, self.p.r7.iter().map(Row::render).collect())].join(" | ") }
       fn iters(&self) -> String { format!("iters {}", self.p.scc_iters.iter().map(|x| x.to_string()).collect::<Vec<_>>().join(" ")) }
    }
 }
